@@ -227,6 +227,8 @@ def str_literal(s, r=None):
             out.append("\\x%02x" % ord(ch))
         else:
             out.append(ch)
+    if r is not None:
+        out = [("\\x" + o[2:].upper()) if (len(o) == 4 and o.startswith("\\x") and r.random() < 0.4) else o for o in out]
     return q + "".join(out) + q
 
 
